@@ -100,6 +100,20 @@ Definition resolve (scheme : string) (rs : list srv) : list string :=
   let g := low_group (sort_srv rs) in
   expand (map (host_of scheme) g) (compact (map weight g)).
 
+(* the part of resolve after the sort, for any list the sort may have produced *)
+Definition resolve_from (scheme : string) (sorted : list srv) : list string :=
+  let g := low_group sorted in
+  expand (map (host_of scheme) g) (compact (map weight g)).
+
+(* sd.NewRandomFixedSubscriber: res[j] = hosts[perm[j]] for perm = rand.Perm(len(hosts)) *)
+Definition shuffle_with (perm : list nat) (hosts : list string) : list string :=
+  map (fun i => nth i hosts "") perm.
+
+(* what update stores for the answer rs when rand.Perm returns perm *)
+Definition update_store (scheme : string) (rs : list srv) (perm : list nat) : list string :=
+  let inst := resolve scheme rs in
+  if (100 <? List.length inst)%nat then shuffle_with perm inst else inst.
+
 (* ---- the subscriber: cache, update, Hosts; slices have identities ---- *)
 
 (* what a history is made of.  ELookup ok rs: the next refresh (the first one is the
